@@ -1,10 +1,14 @@
 ----------------------------- MODULE Trace_Wrap -----------------------------
 (* M3: every record is one call of the real Text.wrap (drivers/c02.py):
-     str  [[code, width] ...]   the text          base  style id of the Text (0 = none)
-     spans [[start, end, style id] ...] in stylize() order
-     width, justify, overflow, no_wrap, tab       the arguments of wrap()
+     str  [[code, width] ...]   the text          base / lbase  style id / link id of the Text's base style (0 = none)
+     spans [[start, end, style id, link id] ...] in order of precedence (stylize() order); a span's style sets
+           attribute + colour "style id" (0: neither) and hyperlink "link id" (0: none) - two independent channels,
+           in each the base lies beneath all spans and later spans win
+     width, justify, overflow, no_wrap, tab       the EFFECTIVE options of the call (argument, else the Text's own
+           attribute, else the default); ovarg = the overflow argument as passed ("none" = None);
+           how = how the driver delivered text, styles and options (not read here)
      exc   "none" or the class of the exception wrap() raised
-     lines [[rexc, chars [[code, width, [style ids present], colour id] ...]] ...]
+     lines [[rexc, chars [[code, width, [style ids present], colour id, link id] ...]] ...]
            what each returned line shows through Text.render (rexc: render raised)
    The effective style of every input character is computed HERE from base and spans with the
    reference semantics of TextOps.tla (base beneath all spans, later spans win); observed
@@ -23,15 +27,17 @@ vars == <<tid>>
 SetOf(x) == {x[i] : i \in DOMAIN x}
 
 InputOf(r) ==
-    LET e == T!Eff(T!Lit([str |-> r.str, base |-> r.base, spans |-> r.spans]))
-    IN [chars    |-> [i \in DOMAIN e |-> Ch(e[i].c, e[i].w, i, <<e[i].set, e[i].top>>)],
+    LET Chan(f) == [i \in DOMAIN r.spans |-> <<r.spans[i][1], r.spans[i][2], r.spans[i][f]>>]
+        e  == T!Eff(T!Lit([str |-> r.str, base |-> r.base, spans |-> Chan(3)]))
+        el == T!Eff(T!Lit([str |-> r.str, base |-> r.lbase, spans |-> Chan(4)]))
+    IN [chars    |-> [i \in DOMAIN e |-> Ch(e[i].c, e[i].w, i, <<e[i].set, e[i].top, el[i].top>>)],
         width    |-> r.width, justify |-> r.justify, overflow |-> r.overflow,
-        no_wrap  |-> r.no_wrap, tab |-> r.tab]
+        no_wrap  |-> r.no_wrap, tab |-> r.tab, ovarg |-> r.ovarg]
 
 RawOf(r) ==
     [l \in DOMAIN r.lines |->
         [k \in DOMAIN r.lines[l].chars |->
-            LET o == r.lines[l].chars[k] IN Ch(o[1], o[2], 0, <<SetOf(o[3]), o[4]>>)]]
+            LET o == r.lines[l].chars[k] IN Ch(o[1], o[2], 0, <<SetOf(o[3]), o[4], o[5]>>)]]
 
 Verdict(r) ==
     IF r.exc # "none" THEN "raises " \o r.exc
